@@ -1260,5 +1260,43 @@ fn c08_driver_binding(rep: &mut Report) {
             }
         }
     }
+    // the receive side: which messages, arriving on the socket of an Established session, re-arm the hold timer
+    let neg = crate::event::verif_event::c08::NEG_HOLD;
+    for (kind, rearm) in crate::event::verif_event::c08::RX_KINDS {
+        let case = format!("binding#received#{kind}");
+        rep.traces_validated += 1;
+        rep.evaluations += 1;
+        match crate::event::verif_event::c08::driver_message_received(kind) {
+            Err(e) => {
+                rep.machinery_error = Some(format!("c08 driver binding (received {kind}): {e}"));
+                return;
+            }
+            Ok(a) => {
+                if a.terminated {
+                    rep.violation(Violation { sig: format!("C08/driver-binding/received/{kind}/session-ended"), what: format!("the session ended on receiving {kind}"), case: case.clone() });
+                    continue;
+                }
+                if a.frames_counted == 0 {
+                    rep.machinery_error = Some(format!("c08 driver binding (received {kind}): the driver did not read the frame"));
+                    return;
+                }
+                let (hn, hs) = a.hold;
+                if *rearm {
+                    if hn == 1 && (775..=777).contains(&hs) {
+                        rep.violation(Violation { sig: format!("C08/driver-binding/received/{kind}/hold-timer-not-rearmed"), what: format!("{kind} was received and counted by the driver of an Established session (negotiated hold {neg} s) but the hold timer still fires in {hs} s as armed before: a neighbour that sends only such messages is dropped for hold-timer expiry although messages were received"), case: case.clone() });
+                    } else if hn != 1 || !(neg - 2..=neg).contains(&hs) {
+                        rep.violation(Violation { sig: format!("C08/driver-binding/received/{kind}/wrong-deadline"), what: format!("after {kind} the hold timer is {hn} pending sleep(s) firing in {hs} s; negotiated hold time {neg} s"), case: case.clone() });
+                    }
+                } else if hn != 1 || !(775..=777).contains(&hs) {
+                    rep.violation(Violation { sig: format!("C08/driver-binding/received/{kind}/hold-timer-rearmed-by-other-message"), what: format!("{kind} re-armed the hold timer ({hn} pending, fires in {hs} s); only KEEPALIVE and UPDATE may"), case: case.clone() });
+                }
+                let (kn, ks) = a.keepalive;
+                if kn != 1 || !(553..=555).contains(&ks) {
+                    rep.violation(Violation { sig: format!("C08/driver-binding/received/{kind}/keepalive-timer-touched"), what: format!("receiving {kind} changed the keepalive timer ({kn} pending, fires in {ks} s; armed with 555 s)"), case });
+                }
+            }
+        }
+    }
+    rep.notes.push(format!("c08-driver-binding/received: {} message kinds written to the socket of an Established session and handled by the real run_select; hold / keepalive deadlines read back", crate::event::verif_event::c08::RX_KINDS.len()));
     rep.notes.push(format!("c08-driver-binding: {} distinct timer outputs emitted by the FSM during the exploration ({}) armed through the real PeerSession::apply_outputs; pending sleep count, deadline and the untouched other timer read back", res.len(), values.iter().map(|(h, v)| format!("{}:{}", if *h { "hold" } else { "ka" }, if *v >= FAR { "disabled".to_string() } else { v.to_string() })).collect::<Vec<_>>().join(" ")));
 }
